@@ -252,12 +252,19 @@ func memoBase() int {
 	f := text.NewFile("x", nil)
 	ctx := parsley.NewContext(parsley.NewFileSet(f), text.NewReader(f))
 	d.Parse(ctx, data.EmptyIntMap, f.Pos(0))
-	for k := range ctx.ResultCache() {
-		return k
+	// only the methods of the cache are used (not its representation): indices are handed out in ascending order,
+	// so the search starts at the last index seen
+	for k := lastMemoIndex; k < lastMemoIndex+(1<<22); k++ {
+		if _, ok := ctx.ResultCache().Get(k, f.Pos(0), data.EmptyIntMap); ok {
+			lastMemoIndex = k
+			return k
+		}
 	}
 	die("cannot learn the memoize index")
 	return -1
 }
+
+var lastMemoIndex = 0
 
 // build constructs the real parsers of G (single-threaded: Memoize indices are base+1, base+2, ...)
 func build(G []gnode, t *tracer) []parsley.Parser {
